@@ -277,6 +277,15 @@ fn verify_signatures(
     // Extract the content to verify from the SignedData structure
     let data_to_verify = extract_signed_content(signed_data, cms_signed_data);
 
+    // An attached signature vouches for its encapsulated content. The caller only
+    // learns `is_valid`, so that content must be the data it asked about: otherwise
+    // any validly signed attached structure would "verify" arbitrary other data.
+    if data_to_verify != signed_data {
+        return SignatureVerification::failure(
+            "Attached content differs from the data to verify".to_string(),
+        );
+    }
+
     for (i, signer) in signers.iter().enumerate() {
         let verification_result = verify_single_signature(signer, &data_to_verify);
 
